@@ -297,6 +297,14 @@ class CQuoter:
             digits_ok = callee_name(d1) == "PyUnicode_READ" and callee_name(d2) == "PyUnicode_READ" and \
                 d2[2][2] == ("binop", "Add", d1[2][2], ("const", 1))
             look = any(op == "LtE" and a == d1[2][2] for op, a, _b in order_facts(st.facts))
+            if not look:
+                # the same bound in another spelling (`pos + 2 <= length`): both digits lie inside the string
+                from .unquoters import _is_length, lin
+                b1, c1 = lin(d1[2][2])
+                for op, a, b in order_facts(st.facts):
+                    (ba, ka), (bb, kb) = lin(a), lin(b)
+                    if ba == b1 and _is_length(bb) and ka - kb + (1 if op == "Lt" else 0) >= c1 + 2:
+                        look = True
             if name == "_write_pct":
                 ctx.ob(rule, q, cons, valid and digits_ok and look,
                        "escape re-emitted without validation of both hex digits / look-ahead bound", w,
@@ -305,7 +313,7 @@ class CQuoter:
             elif name == "_write_char":
                 pos = [k[2][0] for k, v in st.facts.items() if v and callee_name(k) == "bit_at" and k[2][1] == x]
                 neg = [k[2][0] for k, v in st.facts.items() if not v and callee_name(k) == "bit_at" and k[2][1] == x]
-                lt128 = st.facts.get(("cmp", "Lt", x, ("const", 128))) is True
+                lt128 = truth(("cmp", "Lt", x, ("const", 128)), st.facts) is True
                 changed = e.args[2] == ("const", True)
                 ctx.ob(rule, q, cons, valid and digits_ok and look and lt128 and bool(pos) and bool(neg) and changed,
                        "escape decoded without the guards `< 128`, `in safe table`, `not in protected table` on a validated "
@@ -397,7 +405,7 @@ class CQuoter:
             st = e.state
             if name == "_write_char" and x == unit:
                 tabs = [k[2][0] for k, v in st.facts.items() if v and callee_name(k) == "bit_at" and k[2][1] == unit]
-                lt = st.facts.get(("cmp", "Lt", unit, ("const", 128))) is True
+                lt = truth(("cmp", "Lt", unit, ("const", 128)), st.facts) is True
                 ident = e.args[2] == ("const", False)
                 ctx.ob(rule, q, cons, bool(tabs) and lt, "input unit copied to the output without `< 128` and a safe-table test", w,
                        sample=f"ch < 128 and bit_at({[show(t) for t in tabs]}, ch)")
@@ -706,8 +714,50 @@ class CQuoter:
                 ok2, why2 = self._skip_for_else(r, node)
                 if ok2 or not flags:
                     ok, why = ok2, why2
+            if not ok:
+                # predicate idiom: the scan lives in a helper analysed in place (`if self._all_safe(val): return val`); the input is
+                # returned on paths that left the scanning loop by exhaustion (its test is false there) - every early exit of the
+                # loop returns the negative answer, which the caller's test prunes
+                for lid, loop in r.loops.items():
+                    if not isinstance(loop, ast.While) or self._countdown_var(loop.test) is None:
+                        continue
+                    cvar = self._countdown_var(loop.test)
+                    phis = [k for k, fv in s.facts.items() if k[0] == "phi" and k[1] == lid and fv is False and k[2].split(":")[-1] == cvar] or \
+                        [k for k, fv in s.facts.items() if k[0] == "cmp" and fv is False and any(x[0] == "phi" and x[1] == lid and
+                                                                                              x[2].split(":")[-1] == cvar for x in (k[2], k[3]))]
+                    back = r.backedges.get(lid, [])
+                    if not phis or not back:
+                        continue
+                    safe_all = all(
+                        any(callee_name(k) == "bit_at" and fv for k, fv in b.facts.items()) and
+                        any(op == "Lt" and x == ("const", 128) and callee_name(a_) == "PyUnicode_READ" for op, a_, x in order_facts(b.facts))
+                        for b in back)
+                    if not safe_all:
+                        continue
+                    try:
+                        ok3, how3 = self._scan_covers(r, lid, back)
+                    except AnalysisError:
+                        continue
+                    if ok3:
+                        ok, why = True, f"scan in a helper, left by exhaustion: {len(back)} completed-iteration state(s) all under `< 128 and bit_at(safe)`; {how3}"
+                        break
             ctx.ob(rule, q, "return val (skip)", ok, "the unscanned input is returned without every unit being tested against "
                    "`< 128` and the safe table: " + why, where(fi, node), sample=why)
+
+    @staticmethod
+    def _countdown_var(test):
+        """The counter of `while n:` / `while n > 0:` / `while n != 0:` / `while 0 < n:` (it stops at 0), else None."""
+        import ast as _ast
+        if isinstance(test, _ast.Name):
+            return test.id
+        if isinstance(test, _ast.Compare) and len(test.ops) == 1:
+            l, op, rr = test.left, test.ops[0], test.comparators[0]
+            zero = lambda n: isinstance(n, _ast.Constant) and n.value == 0 and not isinstance(n.value, bool)
+            if isinstance(l, _ast.Name) and zero(rr) and isinstance(op, (_ast.Gt, _ast.NotEq)):
+                return l.id
+            if isinstance(rr, _ast.Name) and zero(l) and isinstance(op, (_ast.Lt, _ast.NotEq)):
+                return rr.id
+        return None
 
     def _scan_covers(self, r, lid, back):
         """Does the scanning loop `lid` test every unit of the input? (a) the unit tested on each completed iteration is
@@ -728,8 +778,12 @@ class CQuoter:
                 return False, "the scan does not run over range(length): some positions are never tested"
             var = loop.target.id
             how = "for over range(length)"
-        elif isinstance(loop, _ast.While) and isinstance(loop.test, _ast.Name):
-            var = loop.test.id
+        elif isinstance(loop, _ast.While) and self._countdown_var(loop.test) is not None:
+            var = self._countdown_var(loop.test)
+            # inside a helper analysed in place the variable carries the helper's name as a prefix
+            keys = [n for (l_, n) in r.phis if l_ == lid and (n == var or n.endswith(":" + var))]
+            if len(keys) == 1:
+                var = keys[0]
             phi = ("phi", lid, var)
             srcs = r.phis.get((lid, var), set())
             if not srcs:
@@ -788,9 +842,10 @@ class CQuoter:
             # while <index>: ... else: - the index starts at the length and goes down by one per iteration until it is 0
             from .unquoters import _is_length, lin
             full = False
-            if isinstance(loop.test, _ast.Name):
-                phi = ("phi", lids[0], loop.test.id)
-                srcs = r.phis.get((lids[0], loop.test.id), set())
+            cv = self._countdown_var(loop.test)
+            if cv is not None:
+                phi = ("phi", lids[0], cv)
+                srcs = r.phis.get((lids[0], cv), set())
                 full = bool(srcs) and all(_is_length(x) or lin(x) == (phi, -1) or x == phi for x in srcs)
             how = "while-else counting the index down from the length"
         if ok and full:
